@@ -14,11 +14,21 @@ import (
 func TestVerifC19Limits(t *testing.T) {
 	r := ev.New("C19", "instance-limits")
 	defer r.Flush()
-	r.Rule("every instance-type description over EniQuantity 0..5 x EniPrivateIpAddressQuantity 0..4 (+ -1) x EniIpv6AddressQuantity 0..4 (+ -1) x EniTotalQuantity {0, q-1, q, q+3, 30} x EniTrunkSupported x EriQuantity 0..2 (+ -1) through the real getInstanceType and the Limits accessors; oracle: nothing negative, member-ENI figures within EniTotal-EniQuantity and zero without trunk support, RDMA figure <= EriQuantity and <= attachable secondary interfaces, multi-IP capacity == secondary slots x addresses per interface, IPv6 reported only when the type has IPv6 addresses")
-	for q := 0; q <= 5; q++ {
-		for _, ip4 := range []int{-1, 0, 1, 2, 4} {
-			for _, ip6 := range []int{-1, 0, 1, 4} {
-				for _, tot := range []int{0, q - 1, q, q + 3, 30} {
+	r.Rule("every instance-type description over EniQuantity 0..5 x EniPrivateIpAddressQuantity 0..4 (+ -1) x EniIpv6AddressQuantity 0..4 (+ -1) (thorough: 0..12, -1..12 + 20, 50) x EniTotalQuantity {-1, 0, q-1, q, q+1, q+3, 30} x EniTrunkSupported x EriQuantity 0..2 (+ -1) through the real getInstanceType and the Limits accessors; oracle: nothing negative, member-ENI figures within EniTotal-EniQuantity and zero without trunk support, RDMA figure <= EriQuantity and <= attachable secondary interfaces, multi-IP capacity == secondary slots x addresses per interface, IPv6 reported only when the type has IPv6 addresses")
+	maxQ, ip4s, ip6s := 5, []int{-1, 0, 1, 2, 4}, []int{-1, 0, 1, 4}
+	if ev.Thorough() {
+		// thorough: EniQuantity 0..12, addresses -1..12 and 20, 50
+		maxQ = 12
+		ip4s, ip6s = nil, nil
+		for i := -1; i <= 12; i++ {
+			ip4s, ip6s = append(ip4s, i), append(ip6s, i)
+		}
+		ip4s, ip6s = append(ip4s, 20, 50), append(ip6s, 20, 50)
+	}
+	for q := 0; q <= maxQ; q++ {
+		for _, ip4 := range ip4s {
+			for _, ip6 := range ip6s {
+				for _, tot := range []int{0, q - 1, q, q + 1, q + 3, 30, -1} {
 					for _, trunk := range []bool{false, true} {
 						for _, eri := range []int{-1, 0, 1, 2} {
 							it := &ecs.InstanceType{InstanceTypeId: "x", EniQuantity: q, EniPrivateIpAddressQuantity: ip4, EniIpv6AddressQuantity: ip6, EniTotalQuantity: tot, EniTrunkSupported: trunk, EriQuantity: eri}
